@@ -1738,6 +1738,7 @@ def hist_branches(ctx: Ctx, case: dict) -> bool:
     read_since = [False] * ns  # sampler i has been read since its circuit / input last changed
     seen_slots = [{0} for _ in range(ns)]
     circ_changed = False
+    hp = [sum(op[2] for op in p if op[0] == "herald") for p in (case.get("progs") or [case["prog"]])]  # herald photons per slot
     if len(case.get("progs") or []) > 1:
         ctx.count("hist:circuit_variants=" + str(len(case["progs"])))
     for st in case["steps"]:
@@ -1753,6 +1754,8 @@ def hist_branches(ctx: Ctx, case: dict) -> bool:
                 if st["slot"] in seen_slots[i]:
                     ctx.count("hist:circuit_back_to_an_earlier_object")
                 seen_slots[i].add(st["slot"])
+                if st["slot"] < len(hp):
+                    ctx.count(f"hist:circuit_reassigned:herald_photons {hp[slot_of[i]]}->{hp[st['slot']]}")
                 slot_of[i] = st["slot"]
             if len(st["who"]) < ns:
                 ctx.count("hist:circuit_reassigned_on_one_of_two_samplers")
@@ -1761,6 +1764,11 @@ def hist_branches(ctx: Ctx, case: dict) -> bool:
             ctx.count("hist:circuit_edited_in_place")
             ctx.count("hist:edit:" + st.get("what", "other"))
             touched = [i for i in range(ns) if slot_of[i] == st["slot"]]
+            if st["slot"] < len(hp):
+                add = sum(op[2] for op in st["ops"] if op[0] == "herald")
+                if any(op[0] == "herald" for op in st["ops"]):
+                    ctx.count(f"hist:edit:herald_photons {hp[st['slot']]}->{hp[st['slot']] + add}")
+                hp[st["slot"]] += add
             ctx.count("hist:edit_of_" + ("a_held_circuit" if touched else "a_detached_circuit"))
             if any(read_since[i] for i in touched):
                 ctx.count("hist:edit_after_a_read")
